@@ -111,7 +111,9 @@ func (t *Array) genFunc_IndexOf(m *Module) string {
 	}
 
 	f.Insts = append(f.Insts, block_pre)
-	f.Insts = append(f.Insts, ret.EmitPush()...)
+	// ret already owns one reference (retained when it was loaded from x):
+	// hand that reference to the caller instead of retaining a second time.
+	f.Insts = append(f.Insts, ret.EmitPushNoRetain()...)
 	m.AddFunc(&f)
 	return fn_name
 }
